@@ -441,3 +441,134 @@ main_c07(void)
     return 0;
 }
 #endif
+
+#if MODE == 6
+/* deduplicate_sites: sites at one position collapse onto the first of them, mutations follow; needs sorted sites */
+#ifndef NSITES
+#define NSITES 3
+#endif
+int
+main_c07(void)
+{
+    tsk_table_collection_t t;
+    double pos[NSITES];
+    tsk_id_t msite[NR], group[NSITES];
+    int ret, j, sorted = 1, ngroups = 0;
+    char nm[16], tag;
+
+    ret = tsk_table_collection_init(&t, 0);
+    sym_assume(ret == 0);
+    t.sequence_length = 200;
+    tsk_node_table_add_row(&t.nodes, 1, 0, -1, -1, NULL, 0);
+    for (j = 0; j < NSITES; j++) {
+        pos[j] = sym_f64_int(sym_nm(nm, "x", j));
+        sym_assume(0 <= pos[j] && pos[j] < 100);
+        tag = (char) ('s' + j);
+        tsk_site_table_add_row(&t.sites, pos[j], &tag, 1, &tag, 1); /* ancestral state and metadata identify the row */
+        if (j > 0 && pos[j - 1] > pos[j]) {
+            sorted = 0;
+        }
+    }
+    for (j = 0; j < NR; j++) {
+        msite[j] = sym_choice(sym_nm(nm, "ms", j), 0, NSITES - 1);
+        tag = (char) ('m' + j);
+        tsk_mutation_table_add_row(&t.mutations, msite[j], 0, -1, TSK_UNKNOWN_TIME, "T", 1, &tag, 1);
+    }
+    ret = tsk_table_collection_deduplicate_sites(&t, 0);
+    if (!sorted) {
+        sym_assert(ret < 0, "unsorted sites are rejected");
+        sym_assert(t.sites.num_rows == NSITES, "and the site table is left alone");
+        sym_reach("unsorted");
+    } else {
+        sym_assert(ret == 0, "deduplicate_sites succeeds on sorted sites");
+        for (j = 0; j < NSITES; j++) {
+            if (j == 0 || pos[j] != pos[j - 1]) {
+                ngroups++;
+            }
+            group[j] = ngroups - 1;
+        }
+        sym_assert(t.sites.num_rows == (tsk_size_t) ngroups, "one site per distinct position");
+        for (j = 0; j < NSITES; j++) {
+            if (j == 0 || group[j] != group[j - 1]) {
+                tsk_site_t row;
+                tsk_site_table_get_row(&t.sites, group[j], &row);
+                sym_assert(row.position == pos[j] && row.ancestral_state_length == 1 && row.ancestral_state[0] == 's' + j
+                               && row.metadata_length == 1 && row.metadata[0] == 's' + j,
+                    "the first site of each position survives with its own data");
+            }
+        }
+        sym_assert(t.mutations.num_rows == NR, "no mutation is lost");
+        for (j = 0; j < NR; j++) {
+            sym_assert(t.mutations.site[j] == group[msite[j]] && t.mutations.metadata[t.mutations.metadata_offset[j]] == 'm' + j,
+                "mutations follow their site to the surviving row, in the same order");
+        }
+        if (ngroups < NSITES) {
+            sym_reach("merged");
+        }
+    }
+    tsk_table_collection_free(&t);
+    SYM_END();
+    return 0;
+}
+#endif
+
+#if MODE == 7
+/* EdgeTable.squash: abutting edges of one parent/child pair are merged; coverage per pair is unchanged */
+int
+main_c07(void)
+{
+    tsk_edge_table_t e;
+    double left[NR], right[NR];
+    tsk_id_t child[NR];
+    int ret, j, x;
+    tsk_size_t k;
+    char nm[16];
+
+    ret = tsk_edge_table_init(&e, 0);
+    sym_assume(ret == 0);
+    for (j = 0; j < NR; j++) {
+        left[j] = sym_f64_int(sym_nm(nm, "l", j));
+        right[j] = sym_f64_int(sym_nm(nm, "r", j));
+        sym_assume(0 <= left[j] && left[j] < right[j] && right[j] <= 6);
+        child[j] = sym_choice(sym_nm(nm, "c", j), 0, 1);
+        tsk_edge_table_add_row(&e, left[j], right[j], 2, child[j], NULL, 0);
+    }
+    /* valid input: the intervals of one child are disjoint */
+    for (j = 0; j < NR; j++) {
+        for (x = 0; x < j; x++) {
+            if (child[j] == child[x] && left[j] < right[x] && left[x] < right[j]) {
+                sym_assume(0);
+            }
+        }
+    }
+    ret = tsk_edge_table_squash(&e);
+    sym_assert(ret == 0, "squash succeeds");
+    /* coverage: at every integer position each child is covered exactly when an input edge covers it */
+    for (x = 0; x < 6; x++) {
+        int c;
+        for (c = 0; c < 2; c++) {
+            int in = 0, out = 0;
+            for (j = 0; j < NR; j++) {
+                in += child[j] == c && left[j] <= x && x < right[j];
+            }
+            for (k = 0; k < e.num_rows; k++) {
+                out += e.child[k] == c && e.left[k] <= x && x < e.right[k];
+                sym_assert(e.parent[k] == 2, "parent unchanged");
+            }
+            sym_assert(in == out, "every position is covered by exactly the same parent/child pairs as before");
+        }
+    }
+    for (k = 0; k < e.num_rows; k++) {
+        tsk_size_t q;
+        for (q = 0; q < e.num_rows; q++) {
+            sym_assert(!(q != k && e.child[q] == e.child[k] && e.right[q] == e.left[k]), "no two output edges of one pair abut");
+        }
+    }
+    if (e.num_rows < NR) {
+        sym_reach("squashed");
+    }
+    tsk_edge_table_free(&e);
+    SYM_END();
+    return 0;
+}
+#endif
